@@ -106,7 +106,7 @@ def contribution_tasks(run_, pkg, tier, prefix="C03-a"):
 
 
 def gradient_index_obligation(vtypes):
-    """C03-e: gradient_index is the running sum of COMPACT_DIMENSIONALITY in list order, _len_gradient the total."""
+    """C03-e: gradient_index is the running sum of COMPACT_DIMENSIONALITY in list order."""
     from ..interp import sym_pose
     from ..algebra import CDIM
 
@@ -119,9 +119,6 @@ def gradient_index_obligation(vtypes):
             if not isinstance(gi, Poly) or gi != Poly.const(acc):
                 raise ObFail("vertex %d (%s) gets gradient_index %r, expected %d" % (k, t, gi, acc))
             acc += CDIM[t]
-        lg = ga(g, "_len_gradient", None)
-        if not isinstance(lg, Poly) or lg != Poly.const(acc):
-            raise ObFail("_len_gradient is %r, expected %d" % (lg, acc))
         return dict(vertex_types=list(vtypes), len_gradient=acc)
     return lambda pkg: run_obligation(pkg, fn)
 
